@@ -23,6 +23,15 @@ def plan(tier, seed):
     return ac.std_plan(tier)
 
 
+def _oracle_doubt(ctx, what):
+    """The ORACLE is in doubt on this case (its methods disagree, or the library found something cheaper than its
+    'optimum'): the case is not judged; the run is inconclusive only if that happens on more than a few cases."""
+    ctx.count("oracle-in-doubt")
+    ctx.observe("oracle_in_doubt", what[:160])
+    if ctx.monitors["oracle-in-doubt"] > max(3, 0.01 * ctx.evaluations):
+        ctx.inconclusive_because("the independent oracle was in doubt on more than 1 % of the cases, e.g. " + what[:600])
+
+
 def check_case(ctx, case):
     if "session" in case:
         # one continuum object and one dissimilarity object: compute, edit, compute again (stale caches show here)
@@ -73,7 +82,7 @@ def _check(ctx, case, continuum):
             ctx.inconclusive_because("the independent MILP oracle timed out on more than 5 % of the cases")
         return
     if not opt["agree"]:
-        ctx.inconclusive_because(f"oracle methods disagree: {opt['methods']} on {ctx.current}")
+        _oracle_doubt(ctx, f"oracle methods disagree: {opt['methods']} on {ctx.current}")
         return
     ctx.count("M-OPT")
     ref = opt["value"]
@@ -86,7 +95,7 @@ def _check(ctx, case, continuum):
         if recomputed > ref:
             ctx.fail("cover-not-minimal", detail, monitor="M-OPT")
         else:
-            ctx.inconclusive_because(f"returned cover costs less than the oracle optimum: {detail}")
+            _oracle_doubt(ctx, f"returned cover costs less than the oracle optimum: {detail}")
         return
     if not oracles.close(got, ref):
         ctx.fail("reported-disorder-not-the-minimum", detail, monitor="M-OPT")
